@@ -144,7 +144,7 @@ func checkPublishingFunction(r *Run, p *packages.Package, oa *originAnalysis, fd
 		dst := oa.originsOfExpr(p, fd, call.Args[1], 0)
 		_, srcTemp := hasTagPrefix(src, "call:os.CreateTemp")
 		_, srcMkTemp := hasTagPrefix(src, "call:os.MkdirTemp")
-		if hasTempConst(src) || srcTemp || srcMkTemp || src["field:compressedJSONLinesWriter.tempPath"] {
+		if hasTempConst(src) || srcTemp || srcMkTemp || fieldHoldsTempPath(oa, p, src) {
 			if hasTempConst(dst) {
 				r.Fail("C19-R1-publish-by-rename", construct, call.Pos(), "the rename destination is itself a \".tmp\" name")
 			} else {
@@ -345,17 +345,48 @@ func checkFlushClosure(r *Run, p *packages.Package, fd *ast.FuncDecl) {
 // checkCommitCallbacks: the commit closures in dumpGraph append to checkpoint.Files, persist, and roll back on failure.
 func checkCommitCallbacks(r *Run, p *packages.Package, fd *ast.FuncDecl) {
 	n := 0
-	ast.Inspect(fd.Body, func(x ast.Node) bool {
-		fl, ok := x.(*ast.FuncLit)
-		if !ok || fl.Type.Params == nil || len(fl.Type.Params.List) == 0 {
-			return true
+	// the commit callbacks are the function literals of the package that take a fragment's FileManifest and return an
+	// error and call a persist function (a `func() error` value): written inline in dumpGraph, or built by a helper
+	// that dumpGraph calls
+	_ = fd
+	var lits []*ast.FuncLit
+	var owners []string
+	for _, f := range p.Syntax {
+		for _, d := range f.Decls {
+			ofd, ok := d.(*ast.FuncDecl)
+			if !ok || ofd.Body == nil {
+				continue
+			}
+			ast.Inspect(ofd.Body, func(x ast.Node) bool {
+				fl, ok := x.(*ast.FuncLit)
+				if !ok || fl.Type.Params == nil || len(fl.Type.Params.List) == 0 || fl.Type.Results == nil || len(fl.Type.Results.List) != 1 {
+					return true
+				}
+				if namedName(p.TypesInfo.TypeOf(fl.Type.Params.List[0].Type)) != "FileManifest" {
+					return true
+				}
+				callsPersist := stmtHasCall(fl.Body, func(c *ast.CallExpr) bool {
+					id, ok := c.Fun.(*ast.Ident)
+					if !ok || len(c.Args) != 0 {
+						return false
+					}
+					sig, ok := p.TypesInfo.TypeOf(id).Underlying().(*types.Signature)
+					return ok && sig.Params().Len() == 0 && sig.Results().Len() == 1
+				})
+				if callsPersist {
+					lits = append(lits, fl)
+					owners = append(owners, funcDeclName(ofd))
+				}
+				return true
+			})
 		}
-		// closures taking a FileManifest
-		if !strings.Contains(exprString(r.Fset, fl.Type.Params.List[0].Type), "FileManifest") {
-			return true
-		}
+	}
+	for li, fl := range lits {
 		n++
-		construct := "dumpGraph:commit#" + itoa(n)
+		construct := owners[li] + ":commit#" + itoa(n)
+		if owners[li] == "dumpGraph" {
+			construct = "dumpGraph:commit#" + itoa(n)
+		}
 		idxAppend, idxPersist := -1, -1
 		var persistIf *ast.IfStmt
 		for i, st := range fl.Body.List {
@@ -369,9 +400,11 @@ func checkCommitCallbacks(r *Run, p *packages.Package, fd *ast.FuncDecl) {
 			if ifs, ok := st.(*ast.IfStmt); ok {
 				if as, ok := ifs.Init.(*ast.AssignStmt); ok && len(as.Rhs) == 1 {
 					if c, ok := as.Rhs[0].(*ast.CallExpr); ok {
-						if id, ok := c.Fun.(*ast.Ident); ok && strings.Contains(strings.ToLower(id.Name), "persist") {
-							idxPersist = i
-							persistIf = ifs
+						if id, ok := c.Fun.(*ast.Ident); ok && len(c.Args) == 0 {
+							if sig, ok := p.TypesInfo.TypeOf(id).Underlying().(*types.Signature); ok && sig.Params().Len() == 0 && sig.Results().Len() == 1 {
+								idxPersist = i
+								persistIf = ifs
+							}
 						}
 					}
 				}
@@ -393,10 +426,9 @@ func checkCommitCallbacks(r *Run, p *packages.Package, fd *ast.FuncDecl) {
 		} else {
 			r.Fail("C19-R3-record-after-publish", construct, fl.Pos(), "commit callback does not (append %d, persist %d, roll back: %v, return error: %v): the in-memory checkpoint diverges from the persisted one", idxAppend, idxPersist, rollback, returns)
 		}
-		return true
-	})
-	if n < 2 {
-		r.Undecide("C19-R3: expected two commit callbacks in dumpGraph, found %d", n)
+	}
+	if n < 1 {
+		r.Undecide("C19-R3: no commit callback (a closure taking a FileManifest that calls the persist function) found in package retriever")
 	}
 }
 
@@ -599,6 +631,36 @@ func checkIdentityCompleteness(r *Run, p *packages.Package, decls map[string]*as
 			r.Fail("C19-R6-identity", construct, f.Pos(), "DumpOptions.%s is not part of the checkpoint identity: a resume with a different value is accepted and the two halves of the dump are produced under different options", f.Name())
 		}
 	}
+}
+
+// fieldHoldsTempPath: one of the origins is a struct field of this package (tag field:Type.Name) whose own origins —
+// what its constructor assigns it — include a ".tmp" constant. The field is found by what it is given, not by its name.
+func fieldHoldsTempPath(oa *originAnalysis, p *packages.Package, origins map[string]bool) bool {
+	for tag := range origins {
+		if !strings.HasPrefix(tag, "field:") {
+			continue
+		}
+		parts := strings.SplitN(strings.TrimPrefix(tag, "field:"), ".", 2)
+		if len(parts) != 2 {
+			continue
+		}
+		tn, ok := p.Types.Scope().Lookup(parts[0]).(*types.TypeName)
+		if !ok {
+			continue
+		}
+		st, ok := tn.Type().Underlying().(*types.Struct)
+		if !ok {
+			continue
+		}
+		for i := 0; i < st.NumFields(); i++ {
+			if f := st.Field(i); f.Name() == parts[1] {
+				if hasTempConst(oa.originsOfField(f, 0)) {
+					return true
+				}
+			}
+		}
+	}
+	return false
 }
 
 func hasTempConst(m map[string]bool) bool {
